@@ -338,23 +338,36 @@ def emptiness_on_internal_route(cls: ClassInfo, f: FuncInfo, per_path: Set[str],
     defs = local_single_defs(f.node)
     key = f"{cls.name}.{f.name}:emptiness"
     sites = 0
+    # filter sites: a loop over zip(...) with `if len(x) ...` inside, or a comprehension over zip(...) with that filter
+    cands = []
     for loop in [n for n in ast.walk(f.node) if isinstance(n, ast.For)]:
-        tests = [st for st in ast.walk(loop) if isinstance(st, ast.If) and _len_tested_names(st.test)]
-        if not tests:
-            continue
-        it = loop.iter
-        if not (isinstance(it, ast.Call) and dotted(it.func) == "zip" and isinstance(loop.target, ast.Tuple)
-                and len(loop.target.elts) == len(it.args) and all(isinstance(e, ast.Name) for e in loop.target.elts)):
-            raise AnalysisError(f"{cls.name}.{f.name}: the filter loop is not a zip over the per-route lists: {norm(it)}")
-        source = {t.id: a for t, a in zip(loop.target.elts, it.args)}
-        for st in tests:
-            for name in sorted(_len_tested_names(st.test)):
+        tests = [st.test for st in ast.walk(loop) if isinstance(st, ast.If) and _len_tested_names(st.test)]
+        if tests:
+            cands.append((loop.target, loop.iter, tests, loop))
+    for comp in [n for n in ast.walk(f.node) if isinstance(n, (ast.ListComp, ast.GeneratorExp, ast.SetComp, ast.DictComp))]:
+        for g in comp.generators:
+            tests = [t for t in g.ifs if _len_tested_names(t)]
+            if tests:
+                cands.append((g.target, g.iter, tests, comp))
+    seen_src = set()
+    for target, it, tests, where in cands:
+        if isinstance(it, ast.Name) and it.id in defs:
+            it = defs[it.id]
+        if not (isinstance(it, ast.Call) and dotted(it.func) == "zip" and isinstance(target, ast.Tuple)
+                and len(target.elts) == len(it.args) and all(isinstance(e, ast.Name) for e in target.elts)):
+            raise AnalysisError(f"{cls.name}.{f.name}: the filter is not over a zip of the per-route lists: {norm(it)}")
+        source = {t.id: a for t, a in zip(target.elts, it.args)}
+        for test in tests:
+            for name in sorted(_len_tested_names(test)):
                 if name not in source:
                     raise AnalysisError(f"{cls.name}.{f.name}: length test on `{name}`, which is not an element of the zipped lists")
                 src = source[name]
                 if isinstance(src, ast.Name) and src.id in defs:
                     src = defs[src.id]
                 text = norm(src)
+                if (text, norm(test)) in seen_src:
+                    continue
+                seen_src.add((text, norm(test)))
                 sites += 1
                 prefers_internal = (
                     isinstance(src, ast.Call) and isinstance(src.func, ast.Attribute) and src.func.attr == "get" and len(src.args) == 2
@@ -367,13 +380,13 @@ def emptiness_on_internal_route(cls: ClassInfo, f: FuncInfo, per_path: Set[str],
                 )
                 on_published = isinstance(src, ast.Subscript) and isinstance(src.slice, ast.Constant) and src.slice.value == pkey
                 if prefers_internal:
-                    rep.ok(RID, key, f"emptiness is decided on the internal route when there is one: `{text}`", f.loc(st))
+                    rep.ok(RID, key, f"emptiness is decided on the internal route when there is one: `{text}`", f.loc(where))
                 elif on_published:
-                    rep.violation(RID, key, f"{f.name} decides emptiness on the published `{pkey}` (`{norm(st.test)}`) although the class publishes "
+                    rep.violation(RID, key, f"{f.name} decides emptiness on the published `{pkey}` (`{norm(test)}`) although the class publishes "
                                   f"`{ikey}`: in node-weighted mode a route through a single node condenses to one element and is dropped "
-                                  f"with its weight", f.loc(st))
+                                  f"with its weight", f.loc(where))
                 else:
-                    raise AnalysisError(f"{cls.name}.{f.name}: cannot tell which list the length test `{norm(st.test)}` reads: `{text}`")
+                    raise AnalysisError(f"{cls.name}.{f.name}: cannot tell which list the length test `{norm(test)}` reads: `{text}`")
     if sites == 0:
         raise AnalysisError(f"{cls.name}.{f.name}: no length test found in the remove-empty filter")
     return sites
